@@ -3,6 +3,10 @@
 bin/mut-test, VERIF_REPO pointing the checks at the copy).  `benign: True`
 marks behaviour-preserving or still-correct re-organisations that must raise
 no alarm (they may print DRIFT)."""
+_INS_DESCENT = ("\tp = NULL;\n\tpp = &tree->root;\n\twhile (*pp != NULL) {\n\t\tint ret;\n\n\t\tp = *pp;\n\n"
+                "\t\tret = tree->compare(an, p);\n\t\tif (ret < 0)\n\t\t\tpp = &p->left;\n\t\telse if (ret > 0)\n"
+                "\t\t\tpp = &p->right;\n\t\telse\n\t\t\treturn -1;\n\t}\n")
+
 MUTATIONS = [
  # rotate_left forgets to re-parent the moved middle subtree c
  dict(name="avl-rotl-no-reparent-c", props=["C16"], edits=[("iv_avl.c",
@@ -48,6 +52,18 @@ MUTATIONS = [
  # iv_avl_tree_prev climbs while coming from the right (copy-paste of next)
  dict(name="avl-prev-climb-wrong-side", props=["C16"], edits=[("iv_avl.c",
       "\twhile (p != NULL && an == p->left) {", "\twhile (p != NULL && an == p->right && an != p->left) {")]),
+ # iv_avl_tree_next climbs one level only
+ dict(name="avl-next-single-climb", props=["C16"], edits=[("iv_avl.c",
+      "\twhile (p != NULL && an == p->right) {\n\t\tan = p;\n\t\tp = an->parent;\n\t}",
+      "\tif (p != NULL && an == p->right) {\n\t\tan = p;\n\t\tp = an->parent;\n\t}")]),
+ # insert forgets to clear the new leaf's left link (stale link of a re-inserted node)
+ dict(name="avl-insert-no-left-init", props=["C16"], edits=[("iv_avl.c",
+      "\tan->left = NULL;\n\tan->right = NULL;\n\tan->parent = p;",
+      "\tan->right = NULL;\n\tan->parent = p;")]),
+ # rotate_left re-parents c without testing it for NULL (crashes instead of corrupting)
+ dict(name="avl-rotl-null-deref", props=["C16"], edits=[("iv_avl.c",
+      "\tc = d->left;\n\tb->right = c;\n\tif (c != NULL)\n\t\tc->parent = b;\n\trecalc_height(b);\n\n\td->left = b;\n\td->parent = b->parent;",
+      "\tc = d->left;\n\tb->right = c;\n\tc->parent = b;\n\trecalc_height(b);\n\n\td->left = b;\n\td->parent = b->parent;")]),
  # ---- benign
  # behaviour-preserving: heights recomputed through a local, rotation written with a temporary
  dict(name="avl-refactor-recalc", props=["C16"], benign=True, edits=[("iv_avl.c",
@@ -57,6 +73,10 @@ MUTATIONS = [
  dict(name="avl-victim-left-on-tie", props=["C16"], benign=True, edits=[("iv_avl.c",
       "\tif (height(an->left) > height(an->right)) {\n\t\tvictim = an->left;",
       "\tif (height(an->left) >= height(an->right) && an->left != NULL) {\n\t\tvictim = an->left;")]),
+ # still correct: the new node is initialised before the search, so a rejected duplicate node is written to
+ # (the tree itself is untouched)
+ dict(name="avl-insert-init-first", props=["C16"], benign=True, edits=[("iv_avl.c",
+      _INS_DESCENT, "\tan->left = NULL;\n\tan->right = NULL;\n\tan->height = 1;\n\n" + _INS_DESCENT)]),
 ]
 
 
